@@ -82,7 +82,8 @@ def _build(case):
     nd = case["nodata"]
     zones = np.array(case["zones"], dtype="int16").reshape(Y, X)
     arr = pix.astype(dt)
-    arr[~ok] = nd
+    if not ok.all():
+        arr[~ok] = nd
     return arr, zones, nd
 
 
@@ -156,7 +157,47 @@ def sub_large(case):
             k, cnt[k], float(res[0, k, 0]), m, Y, X, nz, dt, odt), "do_mean mean (large)")
 
 
-SUBS = {"kernel": sub_kernel, "accessor": sub_accessor, "large": sub_large}
+def sub_history(case):
+    """One cube object and one zone raster object, edited in place (zone ids, pixels, nodata attributes) between zonal.mean()
+    calls - also through the bare kernel on the very same zone array: every answer must be the exact mean / count of the rasters
+    as they are at that moment, and answers handed out earlier keep their values."""
+    T, Y, X = case["shape"]
+    nz = case["nz"]
+    pix = np.array(case["pixels"], dtype=case["dtype"]).reshape(T, Y, X).copy()
+    zon = np.array(case["zones"], dtype=case.get("zdtype", "int16")).reshape(Y, X).copy()
+    t = pd.date_range("2001-01-01", periods=T, freq="10D")
+    xa = xr.DataArray(pix, dims=("time", "lat", "lon"), coords={"time": t}, attrs={"nodata": case["nodata"]})
+    za = xr.DataArray(zon, dims=("lat", "lon"), attrs={"nodata": case["znodata"]})
+    held = []
+    for k, op in enumerate(case["ops"]):
+        kind = op[0]
+        if kind == "set_zone":
+            zon[op[1] % Y, op[2] % X] = op[3] % nz if op[3] >= 0 else za.attrs["nodata"]
+        elif kind == "fill_zone_rows":
+            zon[: (op[1] % Y) + 1, :] = op[2] % nz
+        elif kind == "set_pixel":
+            pix[op[1] % T, op[2] % Y, op[3] % X] = op[4]
+        elif kind == "set_nodata":
+            xa.attrs["nodata"] = op[1]
+        elif kind == "set_znodata":
+            if zon.dtype != np.uint8 and op[1] != za.attrs["nodata"]:
+                # the marker of "outside every zone" changes: cells are re-encoded in place, then the attribute follows
+                zon[zon == za.attrs["nodata"]] = op[1]
+                za.attrs["nodata"] = op[1]
+        elif kind in ("query", "kernel"):
+            nd, znd = xa.attrs["nodata"], za.attrs["nodata"]
+            if kind == "query":
+                res = call("zonal.mean after %d operations" % k, lambda: xa.hdc.zonal.mean(za, list(range(nz)))).values
+            else:
+                res = call("do_mean after %d operations" % k, do_mean, pix, zon, nz, nd, znd, np.float32)
+            hist = [o[0] for o in case["ops"][:k + 1]]
+            _compare("%s on the same objects after the history %s" % ("zonal.mean" if kind == "query" else "do_mean", hist), res, pix, zon, nz, nd, znd, "float32")
+            held.append((k, res, res.copy()))
+    for k, res, snap in held:
+        req(np.array_equal(res, snap, equal_nan=True), "the zonal result obtained at step %d changed afterwards" % k, "zonal result aliased")
+
+
+SUBS = {"history": sub_history, "kernel": sub_kernel, "accessor": sub_accessor, "large": sub_large}
 
 
 @st.composite
@@ -216,6 +257,16 @@ def raster(draw, accessor=False):
                 vals[q] = int(max(-2147483647, min(2147483646, int(nd) + draw(st.sampled_from([1, -1, 40, -40])))))
             if vals[q] != nd:
                 ok[q] = True
+    if accessor and draw(st.integers(0, 7)) == 0:
+        # a nodata attribute that no cell of a narrow integer cube can hold (uint8 with -1 / 256, int16 with a uint16 fill value):
+        # every pixel is data, including the values such a number would turn into if it were forced into the cube's dtype
+        dt = draw(st.sampled_from(["uint8", "int16"]))
+        nd = draw(st.sampled_from([-1, 256, 511] if dt == "uint8" else [40000, 65535, -40000]))
+        wrapped = int(np.array(nd, dtype="int64").astype(dt))
+        lo, hi = (0, 255) if dt == "uint8" else (-10000, 10000)
+        vals = [wrapped if draw(st.integers(0, 3)) == 0 else draw(st.integers(lo, hi)) for _ in range(n)]
+        ok = [True] * n
+        kind, share = "offdomain_nodata", 0
     case = {"shape": [T, Y, X], "pixels": vals, "ok": ok, "zones": zones, "nz": max(nz, 1), "znodata": znd, "nodata": nd, "dtype": dt,
             "out_dtype": draw(st.sampled_from(["float32", "float64"])), "kind": kind, "share": share, "zpat": zpat}
     if znd == 255:
@@ -249,6 +300,34 @@ def run(ctx):
         sub_accessor(case)
 
     ctx.given("accessor", raster(accessor=True), ctx.n(200, 3000), fn=f_a)
+
+    @st.composite
+    def hist(draw):
+        T, Y, X = draw(st.integers(1, 2)), draw(st.integers(1, 5)), draw(st.integers(1, 5))
+        nz = draw(st.integers(1, 4))
+        nd = draw(st.sampled_from([-9999, 0, 255]))
+        znd = draw(st.sampled_from([-1, 255, nz - 1]))
+        cell = st.one_of(st.integers(-200, 200), st.sampled_from([-9999, 0, 255]))
+        zcell = st.one_of(st.integers(0, nz - 1), st.just(znd))
+        ops_ = draw(st.lists(st.one_of(
+            st.tuples(st.just("query")), st.tuples(st.just("query")), st.tuples(st.just("kernel")),
+            st.tuples(st.just("set_zone"), st.integers(0, 4), st.integers(0, 4), st.integers(-1, 3)),
+            st.tuples(st.just("fill_zone_rows"), st.integers(0, 4), st.integers(0, 3)),
+            st.tuples(st.just("set_pixel"), st.integers(0, 1), st.integers(0, 4), st.integers(0, 4), cell),
+            st.tuples(st.just("set_nodata"), st.sampled_from([-9999, 0, 255])),
+            st.tuples(st.just("set_znodata"), st.sampled_from([-1, 255]))), min_size=2, max_size=9))
+        return {"shape": [T, Y, X], "nz": nz, "nodata": nd, "znodata": znd, "dtype": draw(st.sampled_from(["int16", "float32", "int32"])),
+                "zdtype": draw(st.sampled_from(["int16", "int32", "uint8"])) if znd != -1 else draw(st.sampled_from(["int16", "int32"])),
+                "pixels": draw(st.lists(cell, min_size=T * Y * X, max_size=T * Y * X)), "zones": draw(st.lists(zcell, min_size=Y * X, max_size=Y * X)),
+                "ops": [list(o) for o in ops_] + [[draw(st.sampled_from(["query", "kernel"]))]]}
+
+    def f_h(case):
+        kinds = [o[0] for o in case["ops"]]
+        rec.case("history", case, nontrivial=sum(k in ("query", "kernel") for k in kinds) >= 2 and any(k.startswith(("set_", "fill_")) for k in kinds),
+                 cls=["ops=%d" % len(kinds)] + sorted(set(kinds)))
+        sub_history(case)
+
+    ctx.given("history", hist(), ctx.n(250, 3000), fn=f_h)
 
     # structured large rasters (closed-form exact means); the size is the point
     larges = [
